@@ -19,6 +19,7 @@ pub struct StrPair {
 
 fn consume_chars<I: DoubleEndedIterator<Item = char>>(mut it: I, how: Consume) -> Ret {
     let mut out = String::new();
+    let h0 = it.size_hint();
     match how {
         Consume::All => {
             while let Some(c) = it.next() {
@@ -60,8 +61,10 @@ fn consume_chars<I: DoubleEndedIterator<Item = char>>(mut it: I, how: Consume) -
             return Ret::Text(out);
         }
     }
+    let h1 = it.size_hint();
+    let fused = if matches!(how, Consume::All | Consume::AllBack) { it.next().is_none() } else { true };
     drop(it);
-    Ret::Text(out)
+    Ret::Text(format!("{}|{:?}|{:?}|{}", out, h0, h1, fused))
 }
 
 /// char iterator that counts as a callback (panic injection point)
